@@ -2,6 +2,7 @@
 from .model import const_val
 from .roles import M_KEY, M_VAL
 from .util import where
+from . import k7
 
 
 def table(prog, mod, name):
@@ -51,3 +52,50 @@ def check_tables(ctx, prog, R):
         ctx.check(S % 8 == 0 and ks[-1] % S == 0 and S <= ks[0] * 8, "tables", "roundup-stride-fits", "round-up stride %d is not a multiple of 8 dividing the last class %d" % (S, ks[-1]))
         ctx.check(all((x % S == 0) for x in ks if x >= S), "tables", "classes-on-stride", "classes above the stride are not multiples of it: a large slot's remainder would not be a valid slot size")
     ctx.sample({"rule": "tables", "size_classes": ks, "key_free_heads": [kf[0], kf[-1]], "val_free_heads": [vf[0], vf[-1]]})
+
+
+def check_class_slot(ctx, prog, R):
+    """The size class of a slot selects its free-list head: wherever the mapping function returns `free_list_offset[j]`,
+    either j is the last index (the shared list of large slots) or the return is guarded by `size_ary[j] == <size param>`
+    with the *same* index expression j."""
+    fn = R.need("FREE_HEAD_OFFSET")
+    ctx.touch(fn)
+    cn = k7.Canon(prog, fn)
+    conds = k7.conditions(prog, fn)
+    rets = []
+    other_rets = []
+    for b, blk in enumerate(fn.blocks):
+        if blk["cleanup"]:
+            continue
+        for st in blk["stmts"]:
+            if st["s"] == "assign" and st["lhs"]["l"] == 0 and not st["lhs"]["p"]:
+                rv = st["rhs"]
+                pl = rv["a"].get("pl") if rv["rv"] == "use" and rv["a"].get("k") in ("cp", "mv") else None
+                if pl and pl["l"] == 1 and len(pl["p"]) >= 2 and pl["p"][-1].startswith("idx:") and any(e.endswith(".free_list_offset") for e in pl["p"]):
+                    rets.append((b, int(pl["p"][-1][4:])))
+                else:
+                    other_rets.append(b)
+    ctx.floor("class-slot", "returns of a free-list head offset", len(rets), 2)
+    ctx.check(not other_rets, "class-slot", "all-returns-from-head-table",
+              "%s returns a value that is not an element of the free-list head table" % fn.name, where=where(fn, other_rets[0] if other_rets else None))
+    n_eq = n_last = 0
+    for b, L in rets:
+        cj = cn.op({"k": "cp", "pl": {"l": L, "p": []}}, b)
+        is_last = cj[0] == "bin" and cj[1] == "Sub" and cj[2][0] == "len" and cj[3] == ("c", 1) and \
+            cj[2][1][0] == "p" and cj[2][1][1] == 1 and any(e.endswith(".free_list_offset") for e in cj[2][1][2])
+        guarded = False
+        for (sb, t_true, t_false, c) in conds:
+            if c[0] != "Eq" or t_true == t_false or not fn.dominates(t_true, b) or any(p_ != sb for p_ in fn.preds()[t_true]):
+                continue
+            for x, y in ((c[1], c[2]), (c[2], c[1])):
+                if x[0] == "p" and x[1] == 1 and len(x[2]) == 2 and x[2][0].endswith(".size_ary") and x[2][1].startswith("idx:") \
+                        and y[0] == "p" and y[1] == 2 and not y[2]:
+                    cm = cn.op({"k": "cp", "pl": {"l": int(x[2][1][4:]), "p": []}}, sb)
+                    if k7.same(cm, cj) and cj[0] != "?":
+                        guarded = True
+        n_eq += guarded
+        n_last += is_last and not guarded
+        ctx.check(guarded or is_last, "class-slot", "index-agreement:%s" % k7.expr_str(cj),
+                  "%s returns free_list_offset[%s] without having established size_ary[%s] == piece size: the free list of one size class is kept in another class's header slot"
+                  % (fn.name, k7.expr_str(cj), k7.expr_str(cj)), where=where(fn, b))
+    ctx.check(n_eq >= 1 and n_last >= 1, "class-slot", "both-arms", "expected an equality-guarded class arm and a last-slot arm for large sizes (found %d / %d)" % (n_eq, n_last), where=where(fn))
